@@ -196,6 +196,20 @@ func (c *Cmd) Lattice(f *Field, thorough bool) []Choice {
 				v.Set(s)
 			})
 		}
+		// long lists: the total word count crosses 127/128 (a signed or doubled UCHAR) and approaches 255
+		for _, n := range []int{114, 128, 200, 236} {
+			n := n
+			if n > c.maxCount(f) {
+				continue
+			}
+			add(fmt.Sprintf("words[%d]", n), func(v reflect.Value) {
+				s := reflect.MakeSlice(f.Type, n, n)
+				for i := 0; i < n; i++ {
+					s.Index(i).SetUint(uint64(0x8000 | i<<4 | 1))
+				}
+				v.Set(s)
+			})
+		}
 	case KString, KOEMString:
 		format := SpecFormat(f)
 		var vals [][]byte
